@@ -63,6 +63,8 @@ func parseCols(t []string, i int, k Kind) ([][]uint64, int) {
 	return cols, i
 }
 
+var gorefDone = map[string]bool{}
+
 func replayMain(args []string) {
 	if len(args) != 2 {
 		fmt.Fprintln(os.Stderr, "usage: corr replay <script> <transcript-out>")
@@ -227,6 +229,62 @@ func replayMain(args []string) {
 			kmode = "rt"
 		case "rt":
 			kxs = append(kxs, parseCell(t[1], kctx[0]))
+		case "goref":
+			// a native screen: the replay runs the whole screen of that clause again (all its scenarios)
+			if len(t) >= 3 && !gorefDone[t[2]] {
+				gorefDone[t[2]] = true
+				genTier = "thorough"
+				rr := &Rng{s: 12345}
+				switch t[2] {
+				case "append-equals-plain-slices":
+					genBigRef(g, rr, "thorough")
+					genHugeAppend(g, rr, "thorough")
+				case "many-growing-appends":
+					genGrowMany(g, rr, "thorough")
+				case "many-small-allocations", "large-allocation":
+					genManyAllocs(g, rr, "quick")
+				case "same-named-local-types":
+					genLocalTypes(g)
+				case "huge-read-write":
+					genHugeRW(g, rr, "thorough")
+				case "huge-pool-buffer-fresh":
+					genHugePool(g, rr, "thorough")
+				case "bulk-pool":
+					genBulkPool(g, rr, "quick")
+				case "huge-length":
+					genHugeLength(g, rr, "thorough")
+				case "giant-buffer":
+					genGiant(g, t[1])
+				case "wide-channel-view":
+					genC14Wide(g, rr, "thorough")
+				case "position-wise-at-any-length":
+					genHugeConv(g, rr, "thorough")
+				case "huge-position-independence":
+					// the pair named in the line, at every length
+					var sk, dk Kind = -1, -1
+					for _, f := range t {
+						if strings.HasPrefix(f, "sk=") {
+							sk = kindOf(f[3:])
+						} else if strings.HasPrefix(f, "dk=") {
+							dk = kindOf(f[3:])
+						}
+					}
+					if sk >= 0 && dk >= 0 {
+						sp := intSpecials(sk)
+						if sk.IsFloat() {
+							sp = floatSpecials(sk)
+						}
+						gorefDone[t[2]] = false // several pairs may be named
+						hugeAllLengths = true
+						hugeCounter = 0
+						genTier = "thorough"
+						g.hugeScreenOpt(sk, dk, sp, false)
+						hugeAllLengths = false
+					}
+				default:
+					fmt.Fprintln(out, line)
+				}
+			}
 		case "bd", "sv", "uv", "scale":
 			// (none of these functions panics: a panic is reported, not propagated)
 			if p := try(func() {
